@@ -172,6 +172,32 @@ func psParallel(a kv) string {
 	return fmt.Sprintf("ok failed=%d bad=%d", atomic.LoadInt64(&failed), bad)
 }
 
+// psInitBusy: a controller starting up calls Init() while another handle (a controller that is loading or saving, a
+// `fan2go fan ...` command) holds the database file for `hold_ms`. Init must leave the stored entries alone.
+func psInitBusy(a kv) string {
+	db, err := bolt.Open(curPs.path, 0600, nil)
+	if err != nil {
+		return "err"
+	}
+	done := make(chan error, 1)
+	go func() {
+		defer func() {
+			if r := recover(); r != nil {
+				done <- fmt.Errorf("panic: %v", r)
+			}
+		}()
+		done <- persistence.NewPersistence(curPs.path).Init()
+	}()
+	time.Sleep(time.Duration(a.int("hold_ms", 200)) * time.Millisecond)
+	_ = db.Close()
+	select {
+	case err = <-done:
+	case <-time.After(20 * time.Second):
+		return "hang"
+	}
+	return psErr(err)
+}
+
 func init() {
 	cleanups = append(cleanups, psClose)
 	register("ps", func(op string, a kv) string {
@@ -185,6 +211,8 @@ func init() {
 		switch op {
 		case "ps.parallel":
 			return psParallel(a)
+		case "ps.initbusy":
+			return psInitBusy(a)
 		case "ps.reopen":
 			curPs.p = persistence.NewPersistence(curPs.path)
 			return "ok"
